@@ -13,7 +13,8 @@
                                        cartesian_product(routes, jobs)), evaluate_and_collect_all (both branches), BestResultSelector
      vrp-core/src/solver/search/recreate/recreate_with_skip_best.rs :: SkipBestInsertionEvaluator::evaluate_all (sort of the
                                        collected vector and the pick of entry skip_index-1)
-     rosomaxa/src/utils/environment.rs :: Parallelism::thread_pool_execute (idx % pools.len(); no pools => inline)
+     rosomaxa/src/utils/environment.rs :: Parallelism::thread_pool_execute (idx % pools.len(); no pools or an empty vector
+                                       of pools => inline; thread_pool_execute_prefix = the function before /repo b5c201c)
      rosomaxa/src/hyper/{static_selective,dynamic_selective,mod}.rs :: search_many / diversify_solutions
                                        (parallel_into_collect over (idx, solution) with thread_pool_execute(idx, ..))
      vrp-core/src/solver/search/decompose_search.rs :: create_multiple_insertion_contexts (groups of route indices),
@@ -222,9 +223,18 @@ Context {A R : Type}.
 (* outcome of one dispatched task: the pool it ran on (None = inline, no pools configured) and its value *)
 Inductive exec := Ran (pool : option nat) (value : R) | ExecPanic.
 
-(* self.thread_pools.as_ref().and_then(|tps| tps.get(idx % tps.len())): pools = None for Parallelism::default(),
-   Some n for Parallelism::new(n, _); n = 0 is a remainder by zero *)
+(* self.thread_pools.as_ref().filter(|tps| !tps.is_empty()).and_then(|tps| tps.get(idx % tps.len())): pools = None for
+   Parallelism::default(), Some n for Parallelism::new(n, _); an empty vector of pools (n = 0) counts as no pool: op() inline
+   (/repo b5c201c) *)
 Definition thread_pool_execute (pools : option nat) (idx : nat) (op : unit -> R) : exec :=
+  match pools with
+  | None => Ran None (op tt)
+  | Some O => Ran None (op tt)
+  | Some n => Ran (Some (idx mod n)%nat) (op tt)
+  end.
+
+(* the function before /repo b5c201c (finding C15-F2): and_then(|tps| tps.get(idx % tps.len())) — n = 0 is a remainder by zero *)
+Definition thread_pool_execute_prefix (pools : option nat) (idx : nat) (op : unit -> R) : exec :=
   match pools with
   | None => Ran None (op tt)
   | Some O => ExecPanic
@@ -234,6 +244,8 @@ Definition thread_pool_execute (pools : option nat) (idx : nat) (op : unit -> R)
 (* search_many / diversify_solutions: parallel_into_collect(solutions.iter().enumerate().collect(), |(idx, s)| thread_pool_execute(idx, || op(s))) *)
 Definition search_many (pools : option nat) (op : A -> R) (t : ptree (nat * A)) : list exec :=
   parallel_collect (fun p => thread_pool_execute pools (fst p) (fun _ => op (snd p))) t.
+Definition search_many_prefix (pools : option nat) (op : A -> R) (t : ptree (nat * A)) : list exec :=
+  parallel_collect (fun p => thread_pool_execute_prefix pools (fst p) (fun _ => op (snd p))) t.
 
 Fixpoint values (l : list exec) : option (list R) :=
   match l with
